@@ -568,6 +568,21 @@ func (i *interpreter) assert(c value, label string) {
 	i.assume(c)
 }
 
+// recordEngineViolation records a violation observed by an engine monitor
+// (not by a harness assertion) on the current path.
+func (i *interpreter) recordEngineViolation(label, detail string) {
+	ps := i.ps()
+	m := ps.model
+	if m == nil {
+		r, mm := i.check(ps.tt.Bool(true), true, "assert")
+		if r != Sat {
+			return
+		}
+		m = mm
+	}
+	i.violation(label, detail, m)
+}
+
 func (i *interpreter) violation(label, detail string, m Model) {
 	ps := i.ps()
 	for _, v := range ps.viols {
